@@ -198,6 +198,9 @@ func runJoinBubble(js joinScenario) result {
 						break
 					}
 				}
+				if len(out) > 0 {
+					log.flag("nocopy-output-before-release")
+				}
 				select {
 				case released <- struct{}{}:
 					log.mu.Lock()
